@@ -88,6 +88,16 @@ def _strategy(exact):
                     case["coef"][letter + "_mat"] = coef((R, k, D) if mm == "per" else (k, D))
                 if vm != "omit":
                     case["coef"][letter.lower() + "_vec"] = coef((R, k) if vm == "per" else (k,))
+            # aliasing mode: two affine forms with the same row symbol receive the SAME matrix object (the library's own
+            # callers do this); the offset vectors stay independent
+            case["alias"] = []
+            pairs = [(forms[i][0], forms[j][0]) for i in range(len(forms)) for j in range(i + 1, len(forms)) if forms[i][1] == forms[j][1]]
+            if pairs and draw(st.booleans()):
+                l1, l2 = draw(st.sampled_from(pairs))
+                if case["modes"][l1][0] != "omit":
+                    case["modes"][l2][0] = case["modes"][l1][0]
+                    case["coef"][l2 + "_mat"] = case["coef"][l1 + "_mat"]
+                    case["alias"] = [l1, l2]
             if key == "xb'xx'":
                 per = draw(st.booleans())
                 case["modes"]["b"] = ["per" if per else "shared"]
@@ -105,7 +115,7 @@ def _strategy(exact):
                 mkind = draw(st.sampled_from(gen.MEASURE_KINDS))
                 case["mkind"] = mkind
                 case["cache"] = draw(st.sampled_from(gen.CACHES))
-                case["m"] = draw(gen.measure_params(mkind, R, D, draw(st.sampled_from([10.0, 100.0]))))
+                case["m"] = draw(gen.measure_params(mkind, R, D, draw(st.sampled_from([10.0, 100.0])), extreme=True))
             return case
         return s()
     return make
@@ -217,7 +227,11 @@ def _integrand(case, r, X):
 def _kwargs(case):
     from ..libx import J
 
-    return {k: J(v) for k, v in case["coef"].items()}
+    kw = {k: J(v) for k, v in case["coef"].items()}
+    al = case.get("alias") or []
+    if len(al) == 2:
+        kw[al[1] + "_mat"] = kw[al[0] + "_mat"]  # the very same array object
+    return kw
 
 
 def _run(case):
@@ -297,6 +311,8 @@ def _labels(case):
         out.append("per_component_R>=2")
     for l, v in case["modes"].items():
         out.append("mode=" + "/".join(v))
+    if case.get("alias"):
+        out.append("aliased_matrices")
     return out
 
 
